@@ -10,6 +10,7 @@ import (
 	"crypto/sha256"
 	"fmt"
 	"sort"
+	"strings"
 	"sync"
 	"testing"
 	"time"
@@ -130,6 +131,7 @@ type txAct struct {
 	S string `json:"s"`
 }
 type txLine struct {
+	Exp  []string `json:"exp"` // (C04 enumeration) expected notification per transaction of the block: new | upd | none
 	Tr   string  `json:"tr"`
 	Act  txAct   `json:"act"`
 	St   txState `json:"st"`
@@ -486,6 +488,52 @@ func (h *txH) step(a txAct) (res string) {
 		if err := h.feedBlock(h.nblk + 1); err != nil {
 			return "ProcessBlock: " + err.Error()
 		}
+	case "BadBlock":
+		// a block message whose body does not hash to its (unchanged) header: S = add | drop | swap | alter
+		if h.nblk >= len(h.blk) {
+			return "no more blocks"
+		}
+		good := h.blocks[h.nblk+2]
+		bad := wire.NewMsgBlock(&good.Header)
+		txs := append([]*wire.MsgTx{}, good.Transactions...)
+		switch a.S {
+		case "add":
+			txs = append(txs, csCoinbase(9000+a.T))
+		case "drop":
+			if len(txs) < 2 {
+				return "nothing to drop"
+			}
+			txs = txs[:len(txs)-1]
+		case "swap":
+			if len(txs) < 3 {
+				return "nothing to swap"
+			}
+			txs[1], txs[2] = txs[2], txs[1]
+		case "alter":
+			c := txs[len(txs)-1].Copy()
+			c.TxOut[0].Value++
+			txs[len(txs)-1] = &c
+		}
+		for _, x := range txs {
+			bad.AddTransaction(x)
+		}
+		msg := wire.NewMsgHeaders()
+		hd := good.Header
+		msg.AddBlockHeader(&hd)
+		h.n.handleMessage(ctx, msg)
+		h.n.handleMessage(ctx, bad)
+		blk := h.n.state.NextBlock()
+		if blk == nil {
+			return "bad block was not requested/buffered"
+		}
+		err := h.n.ProcessBlock(ctx, blk)
+		h.drainOut()
+		// restore the request state so that the genuine block can follow (the trusted peer resends it)
+		h.n.state.ClearBlockRequests(ctx)
+		h.n.state.SetLastHash(*h.n.blocks.LastHash())
+		if err == nil {
+			return "ACCEPTED: the block with a non-matching body was processed without error"
+		}
 	case "Checker":
 		if h.c.Pc != "idle" {
 			return "consumer parked"
@@ -525,7 +573,7 @@ func (h *txH) step(a txAct) (res string) {
 
 func (h *txH) project() txState {
 	ctx := vCtx()
-	s := txState{Q: append([]txQ{}, h.q...), C: h.c, Nblk: h.nblk, Clock: h.clock, Arr: h.arr, Restarts: h.restarts, Checks: h.checks,
+	s := txState{Mp: []txMp{}, Idx: [][]int{}, Un: []txUn{}, St: []txSt{}, Dl: []txNote{}, Q: append([]txQ{}, h.q...), C: h.c, Nblk: h.nblk, Clock: h.clock, Arr: h.arr, Restarts: h.restarts, Checks: h.checks,
 		Height: h.n.blocks.LastHeight(), GetTxOK: true}
 	mtxs, minputs, _ := h.n.memPool.VerifProject()
 	var un map[bitcoin.Hash32]istorage.VerifUnconfirmed
@@ -586,25 +634,52 @@ func TestVerifReplayTxPipeline(t *testing.T) {
 		Rel     []bool  `json:"rel"`
 		Blk     [][]int `json:"blk"`
 		Scripts []struct {
-			ID    string  `json:"id"`
-			Steps []txAct `json:"steps"`
+			ID    string   `json:"id"`
+			Steps []txAct  `json:"steps"`
+			Exp   []string `json:"exp"`
+			Uni   *struct {
+				NT  int     `json:"nt"`
+				Ins [][]int `json:"ins"`
+				Rel []bool  `json:"rel"`
+				Blk [][]int `json:"blk"`
+			} `json:"uni"`
 		} `json:"scripts"`
 	}
 	vLoadScripts(t, &in)
 	tr := vOpenTrace(t)
 	defer tr.Close()
 	for _, sc := range in.Scripts {
-		h := newTxH(t, in.NT, in.Ins, in.Rel, in.Blk)
-		tr.Emit(txLine{Tr: sc.ID, Act: txAct{A: "init"}, St: h.project()})
+		nt, ins, rel, blk := in.NT, in.Ins, in.Rel, in.Blk
+		if sc.Uni != nil {
+			nt, ins, rel, blk = sc.Uni.NT, sc.Uni.Ins, sc.Uni.Rel, sc.Uni.Blk
+		}
+		h := newTxH(t, nt, ins, rel, blk)
+		exp := sc.Exp
+		if exp == nil {
+			exp = []string{}
+		}
+		last := h.project()
+		tr.Emit(txLine{Tr: sc.ID, Act: txAct{A: "init"}, St: last, Exp: exp})
+		panicked := false
 		for _, a := range sc.Steps {
 			skip := h.step(a)
-			tr.Emit(txLine{Tr: sc.ID, Act: a, St: h.project(), Skip: skip})
+			if strings.HasPrefix(skip, "PANIC") {
+				// locks may still be held by the panicking call: do not touch the node again
+				tr.Emit(txLine{Tr: sc.ID, Act: a, St: last, Skip: skip, Exp: exp})
+				panicked = true
+				break
+			}
+			last = h.project()
+			tr.Emit(txLine{Tr: sc.ID, Act: a, St: last, Skip: skip, Exp: exp})
+		}
+		if panicked {
+			continue
 		}
 		// quiescence: finish a parked consumer and drain the channel
 		if h.c.Pc == "mid" {
 			a := txAct{A: "ConsumeB", T: h.c.T}
 			skip := h.step(a)
-			tr.Emit(txLine{Tr: sc.ID, Act: a, St: h.project(), Skip: skip})
+			tr.Emit(txLine{Tr: sc.ID, Act: a, St: h.project(), Skip: skip, Exp: exp})
 		}
 		for len(h.q) > 0 {
 			for _, a := range []txAct{{A: "ConsumeA", T: h.q[0].T}, {A: "ConsumeB"}} {
@@ -615,9 +690,9 @@ func TestVerifReplayTxPipeline(t *testing.T) {
 					a.T = h.c.T
 				}
 				skip := h.step(a)
-				tr.Emit(txLine{Tr: sc.ID, Act: a, St: h.project(), Skip: skip})
+				tr.Emit(txLine{Tr: sc.ID, Act: a, St: h.project(), Skip: skip, Exp: exp})
 			}
 		}
-		tr.Emit(txLine{Tr: sc.ID, Act: txAct{A: "final"}, St: h.project(), Fin: true})
+		tr.Emit(txLine{Tr: sc.ID, Act: txAct{A: "final"}, St: h.project(), Fin: true, Exp: exp})
 	}
 }
